@@ -275,24 +275,31 @@ AfterDelete(objs) ==
 OrphanOf(k) == IF ChildCasc /\ cur.B[k].a # 0 THEN {<<"A", cur.B[k].a>>} ELSE {}
 Orphaned(s, k) == IF ChildCasc /\ cur.B[k].a # 0 THEN RemoveA(s, cur.B[k].a) ELSE s
 
-(* b.a = z   (o2m, o2o) *)
-SetRef(k, z) ==
+(* b.a = z   (o2m, o2o).  side 0: assigned on B (the side that holds the column); side 2 (one-to-one with an optional
+   reference only): the same link made or broken from A's end - A[z].b = B[k], or A[old].b = None for z = 0 - which
+   runs through the reverse-call path of Attribute.__set__ and never deletes an orphan (ChildCasc) *)
+RefSides == IF Rel = "o2o" /\ ~BReq THEN {0, 2} ELSE {0}
+SetRef(k, z, side) ==
+    /\ side \in RefSides
     /\ Open /\ Rel # "m2m" /\ cur.B[k].ex /\ cur.B[k].a # z
     /\ (z # 0 => cur.A[z].ex)
     /\ LET rival   == Rival(k, z)
            learnt  == {<<"B", k>>} \cup (IF z = 0 THEN {} ELSE {<<"A", z>>})
+                                   \cup (IF side = 2 /\ cur.B[k].a # 0 THEN {<<"A", cur.B[k].a>>} ELSE {})
+           orphan  == IF side = 0 THEN OrphanOf(k) ELSE {}
+           linked  == [cur EXCEPT !.B = [j \in BIds |-> IF j = k THEN [cur.B[j] EXCEPT !.a = z]
+                                                        ELSE IF j \in rival THEN [cur.B[j] EXCEPT !.a = 0]
+                                                        ELSE cur.B[j]]]
        IN \/ /\ z = 0 /\ BReq
-             /\ Fail("SetRef", "B", k, z, 0, "ValueError", {<<"B", k>>})
-          \/ TFail("SetRef", "B", k, z, 0)
+             /\ Fail("SetRef", "B", k, z, side, "ValueError", {<<"B", k>>})
+          \/ TFail("SetRef", "B", k, z, side)
           \/ /\ rival # {} /\ BReq
-             /\ Fail("SetRef", "B", k, z, 0, "ConstraintError", learnt \cup {<<"B", b0>> : b0 \in rival})
+             /\ Fail("SetRef", "B", k, z, side, "ConstraintError", learnt \cup {<<"B", b0>> : b0 \in rival})
           \/ /\ ~(z = 0 /\ BReq) /\ ~(rival # {} /\ BReq)
-             /\ cur' = Orphaned([cur EXCEPT !.B = [j \in BIds |-> IF j = k THEN [cur.B[j] EXCEPT !.a = z]
-                                                               ELSE IF j \in rival THEN [cur.B[j] EXCEPT !.a = 0]
-                                                               ELSE cur.B[j]]], k)
-             /\ AfterDelete(OrphanOf(k))
-             /\ known' = known \cup learnt \cup {<<"B", b0>> : b0 \in rival} \cup OrphanOf(k)
-             /\ ev' = Ev("SetRef", "B", k, z, 0, "ok", {})
+             /\ cur' = IF side = 0 THEN Orphaned(linked, k) ELSE linked
+             /\ AfterDelete(orphan)
+             /\ known' = known \cup learnt \cup {<<"B", b0>> : b0 \in rival} \cup orphan
+             /\ ev' = Ev("SetRef", "B", k, z, side, "ok", {})
              /\ UNCHANGED <<db, tx, sess, loadedB>>
 
 (* b.set(u=y, a=z): both attributes change, all or nothing *)
@@ -384,6 +391,16 @@ CollSet(a, S) ==
              /\ ev' = Ev("CollSet", "A", a, Mask(S), 0, "ok", {})
              /\ UNCHANGED <<db, tx, sess, loadedB>>
           \/ TFail("CollSet", "A", a, Mask(S), 0)
+
+(* b.as_ = T : the many-to-many collection assigned from B's end (T may be empty: b.as_.clear()) *)
+MaskA(T) == (IF 1 \in T THEN 1 ELSE 0) + (IF 2 \in T THEN 2 ELSE 0)
+CollSetB(b, T) ==
+    /\ Open /\ HasLinks /\ cur.B[b].ex /\ T # LinksB(cur, b) /\ \A a \in T : cur.A[a].ex
+    /\ \/ /\ cur' = [cur EXCEPT !.L = {l \in @ : l[2] # b} \cup {<<a, b>> : a \in T}]
+          /\ known' = known \cup {<<"B", b>>} \cup {<<"A", a>> : a \in T \cup LinksB(cur, b)}
+          /\ ev' = Ev("CollSetB", "B", b, MaskA(T), 0, "ok", {})
+          /\ UNCHANGED <<db, tx, sess, pendNew, pendDel, loadedB>>
+       \/ TFail("CollSetB", "B", b, MaskA(T), 0)
 
 (* a.bs.clear() *)
 CollClear(a) ==
@@ -619,10 +636,11 @@ ValsN == Vals \cup {0}
 Modify == \/ \E k \in AIds, x \in ValsN : CreateA(k, x) \/ SetV(k, x)
           \/ \E k \in BIds, y \in ValsN, z \in AIds \cup {0} : CreateB(k, y, z)
           \/ \E k \in BIds, y \in ValsN : SetU(k, y)
-          \/ \E k \in BIds, z \in AIds \cup {0} : SetRef(k, z)
+          \/ \E k \in BIds, z \in AIds \cup {0}, side \in {0, 2} : SetRef(k, z, side)
           \/ \E k \in BIds, y \in ValsN, z \in AIds \cup {0} : SetMany(k, y, z)
           \/ \E a \in AIds, b \in BIds, y \in 0 .. 2 : CollAdd(a, b, y) \/ CollRemove(a, b, y) \/ LAdd(a, b, y) \/ LRemove(a, b, y)
           \/ \E a \in AIds, S \in SUBSET BIds : CollSet(a, S)
+          \/ \E b \in BIds, T \in SUBSET AIds : CollSetB(b, T)
           \/ \E a \in AIds : CollClear(a) \/ DeleteA(a) \/ BulkDeleteA(a)
           \/ \E b \in BIds : DeleteB(b)
 
